@@ -204,6 +204,14 @@ func (w *W) SetExtra(k string, v any) {
 	w.rep.Extra[k] = v
 }
 
+// RepoDir is the checkout under test (frames below it attribute a panic to arr.ai).
+var RepoDir = func() string {
+	if d := os.Getenv("VERIF_REPO"); d != "" {
+		return d
+	}
+	return "/repo"
+}()
+
 var numRE = regexp.MustCompile(`-?\d+(\.\d+)?(e[+-]?\d+)?`)
 var quoRE = regexp.MustCompile("\"[^\"]*\"|'[^']*'|`[^`]*`")
 var hexRE = regexp.MustCompile(`0x[0-9a-f]+`)
@@ -229,13 +237,13 @@ func PanicSite(r any, stack []byte) (msg, fn string, inRepo bool) {
 	lines := strings.Split(string(stack), "\n")
 	for i := 1; i < len(lines); i++ {
 		l := lines[i]
-		if strings.HasPrefix(l, "\t/repo/") && !strings.Contains(l, "zz_verif") && !strings.Contains(l, "/pkg/zzverif/") {
+		if strings.HasPrefix(l, "\t"+RepoDir+"/") && !strings.Contains(l, "zz_verif") && !strings.Contains(l, "/pkg/zzverif/") {
 			f := strings.TrimSpace(lines[i-1])
 			if j := strings.LastIndex(f, "("); j > 0 {
 				f = f[:j]
 			}
 			f = strings.TrimPrefix(f, "github.com/arr-ai/arrai/")
-			file := strings.TrimPrefix(strings.TrimSpace(l), "/repo/")
+			file := strings.TrimPrefix(strings.TrimSpace(l), RepoDir+"/")
 			if j := strings.Index(file, ":"); j > 0 {
 				file = file[:j]
 			}
